@@ -1088,7 +1088,9 @@ class CompositeEnvelope:
                         os = s.envelope.polarization
                     elif isinstance(s, Polarization):
                         os = s.envelope.fock
-                    if os not in state_list:
+                    # identity, not equality: two Fock states holding the same
+                    # label compare equal
+                    if not any(os is x for x in state_list):
                         state_list.append(os)
 
         # If the state resides in the BaseState or Envelope measure there
